@@ -17,8 +17,8 @@ pub const SPEC: PropSpec = PropSpec {
     required: &["agree.ok", "agree.err", "docs.unknown_element", "docs.xsi_nil", "docs.xsi_nil_after_skipped_element_declaring_xsi", "docs.cdata", "docs.doctype", "docs.mutated", "docs.valid", "targets_seen_all", "cutsets"],
     run,
     replay,
-    thorough_layers: &[],
-    quick_layers: &[],
+    thorough_layers: &[("novl", 50)],
+    quick_layers: &[("novl", 50)],
     post: Some(post),
 };
 
